@@ -455,6 +455,18 @@ func defaultMembers(tier string, cfg gen.Config) []member {
 			out = append(out, member{name: "default " + pos + " " + sp.String(), cfg: cfg, root: place(sp, pos)})
 		}
 	}
+	// defaults of properties that sit INSIDE the branches of a composition: the merged allOf struct and each anyOf branch type decode
+	// their own properties and apply their defaults like any other object
+	dprop := func(l string) *fam.Prop {
+		return &fam.Prop{Label: l, Spec: &fam.Spec{Kind: "integer", Default: "scalar"}}
+	}
+	sprop := func(l string, req bool) *fam.Prop {
+		return &fam.Prop{Label: l, Spec: &fam.Spec{Kind: "string"}, Required: req}
+	}
+	out = append(out, member{name: "default inside an allOf branch", cfg: cfg, tag: "default inside an allOf branch", root: &fam.Spec{Kind: "object", Props: []*fam.Prop{{Label: "c", Required: true, Spec: &fam.Spec{Kind: "object",
+		AllOf: []*fam.Spec{{Kind: "object", Props: []*fam.Prop{sprop("a", true)}}, {Kind: "object", Props: []*fam.Prop{dprop("n")}}}}}}}})
+	out = append(out, member{name: "default inside an anyOf branch", cfg: cfg, tag: "default inside an anyOf branch", root: &fam.Spec{Kind: "object", Props: []*fam.Prop{{Label: "u", Required: true, Spec: &fam.Spec{Kind: "object",
+		AnyOf: []*fam.Spec{{Kind: "object", Props: []*fam.Prop{sprop("a", true), dprop("n")}}, {Kind: "object", Props: []*fam.Prop{sprop("b", true)}}}}}}}})
 	return out
 }
 
